@@ -475,7 +475,7 @@ class Executor:
 
   def local_names(self, fr):
     if not hasattr(fr, '_local_names'):
-      fr._local_names = extract.assigned_names(fr.fdef.body) - fr.globals_declared
+      fr._local_names = extract.bound_names(fr.fdef.body) - fr.globals_declared
     return fr._local_names
 
   def assign_name(self, name, w, node=None):
@@ -2222,6 +2222,7 @@ class Executor:
       self.havoc_self(c, selfw)
       exc = VExc(case.exc, ident=self.path.fresh_const('exc', sym.Val),
                  note=f'raised by {c.qual} ({case.label})')
+      exc.raised_by = c.target or c.qual
       ctx2 = Ctx(self.path, args_snap, old, self.snapshot_state(), exc=exc,
                  ghost=self.path.ghost, trace=self.path.trace)
       if selfw is not None:
@@ -2238,6 +2239,7 @@ class Executor:
     cls = self.path.fresh_const('exccls', sym.ExcCls)
     exc = VExc(cls, ident=self.path.fresh_const('exc', sym.Val),
                note=f'raised by {c.qual} (unlisted)')
+    exc.raised_by = c.target or c.qual
     ctx2 = Ctx(self.path, args_snap, old, self.snapshot_state(), exc=exc,
                ghost=self.path.ghost, trace=self.path.trace)
     if selfw is not None:
